@@ -158,13 +158,13 @@ iwrc iwstw_schedule(struct iwstw *stw, iwstw_task_f fn, void *arg) {
 
   while (stw->queue_limit && (stw->cnt + 1 > stw->queue_limit)) {
     if (stw->queue_blocking) {
+      stw->queue_blocked = true;
+      pthread_cond_wait(&stw->cond_queue, &stw->mtx);
       if (stw->shutdown) {
         rc = IW_ERROR_INVALID_STATE;
         pthread_mutex_unlock(&stw->mtx);
         goto finish;
       }
-      stw->queue_blocked = true;
-      pthread_cond_wait(&stw->cond_queue, &stw->mtx);
     } else {
       rc = IW_ERROR_OVERFLOW;
       pthread_mutex_unlock(&stw->mtx);
